@@ -632,13 +632,16 @@ class ReadParquet(PartitionsFiltered, BlockwiseIO):
             # Predicate pushdown
             filters = _DNF.extract_pq_filters(self, parent.predicate)
             if filters._filters is not None:
-                return self.substitute_parameters(
+                result = self.substitute_parameters(
                     {
                         "filters": filters.combine(
                             self.operand("filters")
                         ).to_list_tuple()
                     }
                 )
+                if self._filtered:
+                    result = self._reselect_partitions(result)
+                return result
 
         if isinstance(parent, Lengths):
             _lengths = self._get_lengths()
@@ -696,6 +699,11 @@ class ReadParquet(PartitionsFiltered, BlockwiseIO):
     @abstractmethod
     def _divisions(self):
         raise NotImplementedError
+
+    def _reselect_partitions(self, other):
+        """Make ``other`` (this read with more filters) select the partitions
+        that ``self._partitions`` selects here"""
+        return other
 
     @property
     def _fusion_compression_factor(self):
@@ -996,6 +1004,17 @@ class ReadParquetPyarrowFS(ReadParquet):
 
     def _divisions(self):
         return self._division_from_stats[0]
+
+    def _reselect_partitions(self, other):
+        # The files that the filters rule out are not read at all, which
+        # renumbers the partitions: select the remaining files by path
+        position = {frag.path: i for i, frag in enumerate(other.fragments)}
+        paths = [self.fragments[i].path for i in self._partitions]
+        partitions = [position[path] for path in paths if path in position]
+        if not partitions:
+            # nothing left to read: leave the filter in memory
+            return None
+        return other.substitute_parameters({"_partitions": partitions})
 
     def _tune_up(self, parent):
         if self._fusion_compression_factor >= 1:
